@@ -21,10 +21,12 @@ EXPLANATION = (
     "numeric leaders are looked up in `content` through str(), json's key conversion); R-json-order "
     "(no set iteration order reaches the serialised feature list: the loader's class keeps the given "
     "order); R-loader-fits (load_discretizer rebuilds values_orders before constructing and fits "
-    "the object it returns)."
+    "the object it returns); R-history-json-types (the viability flags stored in _history are Python "
+    "bools -- builtin all/any/not/and -- never numpy reductions, and historized values go through "
+    "the base-type converter: to_json() stays serialisable by the json module)."
 )
 NOT_DECIDED = "behavioural equality of the reloaded object on data; json module's own float round trip"
-FLOORS = {"R-json-keys": 3, "R-json-extras": 2, "R-json-closure": 1, "R-sentinel": 4, "R-json-order": 1, "R-loader-fits": 2}
+FLOORS = {"R-json-keys": 3, "R-json-extras": 2, "R-json-closure": 1, "R-sentinel": 4, "R-json-order": 1, "R-loader-fits": 2, "R-history-json-types": 9}
 
 NON_BEHAVIOURAL = {"verbose": "printing only", "n_jobs": "number of worker processes only (C10: result independent of it)"}
 
@@ -199,7 +201,64 @@ def rule_loader(ctx):
     ctx.ob(R, construct(ld, "the returned object has been fitted (labels_per_values built)"), ok, loc(ld))
 
 
+def _python_bool(cfg, fn, e, use, depth=0):
+    """True: a Python bool / None; False: definitely a numpy/pandas scalar; None: unknown."""
+    from .carver import dominating_def
+
+    if depth > 6:
+        return None
+    if isinstance(e, ast.Constant):
+        return isinstance(e.value, bool) or e.value is None
+    if isinstance(e, ast.UnaryOp) and isinstance(e.op, ast.Not):
+        return True
+    if isinstance(e, ast.Call):
+        if isinstance(e.func, ast.Name) and e.func.id in ("all", "any", "bool", "isinstance", "callable", "hasattr"):
+            return True
+        if isinstance(e.func, ast.Attribute) and e.func.attr in ("all", "any", "sum", "mean", "item", "max", "min", "prod", "equals") and e.func.attr != "equals":
+            return False  # numpy / pandas reduction: numpy.bool_ / numpy.float64
+        return None
+    if isinstance(e, ast.Compare):
+        if all(isinstance(o, (ast.Is, ast.IsNot, ast.In, ast.NotIn)) for o in e.ops):
+            return True
+        return None
+    if isinstance(e, ast.BoolOp):
+        vals = [_python_bool(cfg, fn, v, use, depth + 1) for v in e.values]
+        if any(v is False for v in vals):
+            return False  # `a and b` returns one of its operands
+        return True if all(v is True for v in vals) else None
+    if isinstance(e, ast.Name):
+        d = dominating_def(cfg, fn, e.id, use)
+        return _python_bool(cfg, fn, d, d, depth + 1) if d is not None else None
+    return None
+
+
+def rule_history_types(ctx):
+    R = "R-history-json-types"
+    ft = ctx.repo.find_function(f"{F_BC}::BaseCarver._test_viability")
+    cfg = cfg_of(ctx, ft)
+    # flags handed to the historization (dict literals merged into test_results)
+    n = 0
+    for c in calls(ft, "update"):
+        if not (c.args and isinstance(c.args[0], ast.Dict)) or "test_results" not in unparse(c.func.value):
+            continue
+        for k, v in zip(c.args[0].keys, c.args[0].values):
+            n += 1
+            pb = _python_bool(cfg, ft.node, v, c)
+            ctx.ob(R, construct(ft, f"history flag {const_value(k)!r} is a Python bool"), pb is not False, loc(ft, v),
+                   "" if pb is not False else "a numpy.bool_ reaches _history['viability'] / the test flags: json.dump(carver.to_json()) raises TypeError")
+    if n == 0:
+        raise AnalysisError("_test_viability: test_results.update({...}) anchors not found")
+    # the other values written per record are converted or plain
+    sc = ctx.repo.find_function(f"{F_SER}::json_serialize_combination")
+    ok = any(isinstance(x, ast.ListComp) and "convert_value_to_base_type(value)" in unparse(x) for x in ast.walk(sc.node))
+    ctx.ob(R, construct(sc, "values of each historized combination go through convert_value_to_base_type"), ok, loc(sc))
+    sh = ctx.repo.find_function(f"{F_SER}::json_serialize_history")
+    ok = "json_serialize_combination(combination)" in unparse(sh.node) and "'combination' in combination" in unparse(sh.node)
+    ctx.ob(R, construct(sh, "every record holding a combination is serialised, marker records are skipped"), ok, loc(sh))
+
+
 def check(ctx):
+    rule_history_types(ctx)
     rule_json_keys(ctx)
     rule_json_extras(ctx)
     rule_json_closure(ctx)
@@ -225,6 +284,8 @@ MUTANTS = [
     M("numpy floats left as is", [(F_SER, "    elif isinstance(value, floating):  # np.float value\n        output = float(value)\n", "")], "R-sentinel", "numpy integer"),
     M("numeric keys looked up unconverted", [(F_SER, "            if not isinstance(value, str) and isfinite(value):\n                content_key = str(value)\n", "")], "R-sentinel", "looked up"),
     M("content not serialised through the converter", [(F_SER, "            \"content\": convert_values_to_base_types(order.content),", "            \"content\": order.content,")], "R-sentinel", "order and content"),
+    M("vectorised .all() puts a numpy.bool_ into the history", [(F_BC, "                    min_freq_dev = all(dev_rates[\"frequency\"] >= self.min_freq_mod)", "                    min_freq_dev = (dev_rates[\"frequency\"] >= self.min_freq_mod).all()")], "R-history-json-types", "min_freq_dev"),
+    M("history values not converted", [(F_SER, "                [convert_value_to_base_type(value) for value in modality]", "                [value for value in modality]")], "R-history-json-types", "convert_value_to_base_type"),
     M("loader returns an unfitted object", [(F_BASE, "    discretizer = BaseDiscretizer(**discretizer_json)\n    discretizer.fit()\n", "    discretizer = BaseDiscretizer(**discretizer_json)\n")], "R-loader-fits", "fitted"),
 ]
 BENIGN = [
